@@ -69,6 +69,18 @@ func (in *Interp) ival(t *Term) (lo, hi uint64) {
 		if t.Args[1].IsConst() && t.Args[1].Val != 0 {
 			lo, hi = 0, t.Args[1].Val-1
 		}
+	case OSDiv, OSRem:
+		// non-negative dividend and positive constant divisor: same as unsigned
+		if t.Args[1].IsConst() && t.Args[1].Val != 0 && t.Args[1].Val < uint64(1)<<uint(t.Sort.W-1) {
+			al, ah := in.ival(t.Args[0])
+			if ah < uint64(1)<<uint(t.Sort.W-1) {
+				if t.Op == OSDiv {
+					lo, hi = al/t.Args[1].Val, ah/t.Args[1].Val
+				} else {
+					lo, hi = 0, t.Args[1].Val-1
+				}
+			}
+		}
 	case OAnd:
 		if t.Args[1].IsConst() {
 			lo, hi = 0, t.Args[1].Val
